@@ -70,7 +70,7 @@ CLAIMED["C11"] = (
 )
 
 CLAIMED["C17"] = (
-    "runtime monitor with a grammar-driven generator that emits both the script text and the tree built through the Rust API (operators x operand forms, bindings, every shape constructor in map / positional-permutation / chained / two-tree / reduction forms, vec2->vec3 promotion, axis/plane coercions, comparison operators), compared structurally (Tree == Tree) after evaluation by the real rhai engine; first failing sub-construct localised",
+    "runtime monitor with a grammar-driven generator that emits both the script text and the tree built through the Rust API (operators x operand forms, bindings, every shape constructor in map / positional-permutation / chained / two-tree / reduction forms, vec2->vec3 promotion, axis/plane coercions, comparison operators), compared structurally (Tree == Tree) after evaluation by the real rhai engine; first failing sub-construct localised; thorough tier: Miri interprets one script per call form through the engine (unsafe reflection that builds defaulted fields)",
     "Held on every generated script observed except the listed known findings (documented call forms that are rejected with an error; never a silently wrong tree). 428 required coverage members all seen per quick run. Exploration over the script grammar.",
     "Scripts stay within the engine's limits; number literals exactly representable; forms outside the documented domain are not generated.",
     "DESIGN.md 3/C17",
